@@ -286,7 +286,14 @@ class Filterbank(ABC):
             kernels.extract_tim(data, tim_ar, self.header.nchans, nsamps_r, ii * gulp)
         return TimeSeries(
             tim_ar,
-            self.header.new_header({"nchans": 1, "dm": 0, "nsamples": tim_len}),
+            self.header.new_header(
+                {
+                    "nchans": 1,
+                    "dm": 0,
+                    "nsamples": tim_len,
+                    "tstart": self.header.mjd_after_nsamps(start),
+                },
+            ),
         )
 
     def bandpass(
@@ -391,7 +398,14 @@ class Filterbank(ABC):
             )
         return TimeSeries(
             tim_ar,
-            self.header.new_header({"nchans": 1, "dm": dm, "nsamples": tim_len}),
+            self.header.new_header(
+                {
+                    "nchans": 1,
+                    "dm": dm,
+                    "nsamples": tim_len,
+                    "tstart": self.header.mjd_after_nsamps(start),
+                },
+            ),
         )
 
     def read_chan(
@@ -479,6 +493,7 @@ class Filterbank(ABC):
         updates = {
             "fch1": self.header.fch1 + (self.header.nchans - 1) * self.header.foff,
             "foff": self.header.foff * -1,
+            "tstart": self.header.mjd_after_nsamps(start),
         }
 
         out_file = self.header.prep_outfile(
@@ -536,7 +551,10 @@ class Filterbank(ABC):
 
         mask = np.array(chan_mask).astype("bool")
         mask_value = np.float32(mask_value).astype(self.header.dtype)
-        out_file = self.header.prep_outfile(outfile_name)
+        out_file = self.header.prep_outfile(
+            outfile_name,
+            updates={"tstart": self.header.mjd_after_nsamps(start)},
+        )
         for nsamps_r, _ii, data in self.read_plan(
             gulp=gulp,
             start=start,
@@ -599,6 +617,7 @@ class Filterbank(ABC):
             "tsamp": self.header.tsamp * tfactor,
             "nchans": self.header.nchans // ffactor,
             "foff": self.header.foff * ffactor,
+            "tstart": self.header.mjd_after_nsamps(start),
         }
         out_file = self.header.prep_outfile(outfile_name, updates=updates)
 
@@ -843,6 +862,7 @@ class Filterbank(ABC):
                                 "nchans": chanpersub,
                                 "fch1": fstart
                                 + (batch_start + i) * chanpersub * self.header.foff,
+                                "tstart": self.header.mjd_after_nsamps(start),
                             },
                             nbits=self.header.nbits,
                         ),
@@ -912,7 +932,11 @@ class Filterbank(ABC):
         if outfile_name is None:
             outfile_name = f"{self.header.basename}_digi.fil"
 
-        out_file = self.header.prep_outfile(outfile_name, nbits=nbits_out)
+        out_file = self.header.prep_outfile(
+            outfile_name,
+            updates={"tstart": self.header.mjd_after_nsamps(start)},
+            nbits=nbits_out,
+        )
         for _, _, data in self.read_plan(
             gulp=gulp,
             start=start,
@@ -972,7 +996,11 @@ class Filterbank(ABC):
             self.header.nsamples * self.header.nchans,
             dtype=self.header.dtype,
         )
-        out_file = self.header.prep_outfile(outfile_name, nbits=self.header.nbits)
+        out_file = self.header.prep_outfile(
+            outfile_name,
+            updates={"tstart": self.header.mjd_after_nsamps(start)},
+            nbits=self.header.nbits,
+        )
         for nsamps_r, _, data in self.read_plan(
             gulp=gulp,
             start=start,
